@@ -584,6 +584,8 @@ class Engine:
             if isinstance(v, SV):
                 return z3.And(Val.is_ref(v.term), so.subclass(so.typeof(Val.r(v.term)), Val.c(clsval.term)))
             self.unsupported(node, "isinstance with symbolic class")
+        if type(clsval).__name__ == "ExtV":
+            clsval = ClassV(ext=clsval.dotted)
         if not isinstance(clsval, ClassV):
             self.unsupported(node, "isinstance against %r" % (clsval,))
         name = clsval.name
